@@ -381,6 +381,38 @@ pub fn directed() -> Vec<Request> {
             item: format!("enum X<'a, T, const N: usize> {{ A(T, {ty}), #[default] B {{ a: {ty} }} }}"),
         });
     }
+    // wide inputs: many generic parameters, fields, variants, bound entries, field-level entries
+    for n in [9usize, 12, 17, 33] {
+        let params: Vec<String> = (0..n).map(|i| format!("T{i}")).collect();
+        let plist = params.join(", ");
+        let named: Vec<String> = (0..n).map(|i| format!("f{i}: T{i}")).collect();
+        let alternating: Vec<String> = (0..n).map(|i| if i % 2 == 0 { "T".to_string() } else { "Vec<U>".to_string() }).collect();
+        let variants: Vec<String> = (0..n).map(|i| format!("V{i}(T{i})")).collect();
+        let wide = [
+            ("Clone, Default, Debug, PartialEq, Add", format!("struct X<{plist}> {{ {} }}", named.join(", "))),
+            ("Copy, Clone, Ord, PartialOrd, Eq, PartialEq, Hash, Neg, SubAssign", format!("struct X<T, U>({});", alternating.join(", "))),
+            ("Clone, Debug, PartialOrd, PartialEq, Hash", format!("enum X<{plist}> {{ {} }}", variants.join(", "))),
+            (&*format!("Clone(bound({plist})), Default(bound({plist}, ..))"), format!("struct X<{plist}>(T0);")),
+            ("Clone, Default", format!("struct X<{plist}>(#[derive_ex({})] T0);", TRAITS.iter().take(n).map(|t| format!("{t}(bound(T{}))", n - 1)).collect::<Vec<_>>().join(", "))),
+        ];
+        for (attr, item) in wide {
+            out.push(Request { mode: Mode::Attr, attr: attr.to_string(), item: item.clone() });
+            out.push(Request { mode: Mode::Derive, attr: String::new(), item: format!("#[derive_ex({attr})] {item}") });
+        }
+    }
+    // field- and variant-level #[derive_ex(..)] entries naming traits that are / are not derived
+    // at type level, through both entry points
+    for field_list in ["Clone, Default", "Clone(bound(T)), Default(bound(U)), Debug(bound())", "Ord, PartialOrd, Eq, PartialEq, Hash", "Add, Sub, Neg", "Unknown, Clone"] {
+        for type_list in ["Clone", "Debug", "Clone, Default, Debug", ""] {
+            for item in [
+                format!("struct X<T, U>(#[derive_ex({field_list})] T, U);"),
+                format!("enum X<T, U> {{ #[derive_ex({field_list})] A(#[derive_ex({field_list})] T), #[default] B(U) }}"),
+            ] {
+                out.push(Request { mode: Mode::Attr, attr: type_list.to_string(), item: item.clone() });
+                out.push(Request { mode: Mode::Derive, attr: String::new(), item: format!("#[derive_ex({type_list})] {item}") });
+            }
+        }
+    }
     // normalise to the printed token form and drop what is not a valid request
     let mut res = Vec::new();
     let mut seen = std::collections::BTreeSet::new();
